@@ -107,8 +107,17 @@ def step (s : St) (ts : List String) : St × String :=
   match ts with
   | ["cfg", "lruset"] => ({ kind := .lru false {} }, "ok")
   | ["cfg", "lrumap"] => ({ kind := .lru true {} }, "ok")
+  -- the key type (int / std::string / move-sensitive struct) does not change the model
+  | ["cfg", "lruset", kt] =>
+    if kt = "int" ∨ kt = "str" ∨ kt = "mk" then ({ kind := .lru false {} }, "ok") else ({ kind := .none }, "bad-op")
+  | ["cfg", "lrumap", kt] =>
+    if kt = "int" ∨ kt = "str" ∨ kt = "mk" then ({ kind := .lru true {} }, "ok") else ({ kind := .none }, "bad-op")
   | ["cfg", "splay", v, c] =>
     if (v = "set" ∨ v = "multi") ∧ (c = "less" ∨ c = "greater") then
+      ({ kind := .splay (v = "multi") (c = "greater") {} }, "ok")
+    else ({ kind := .none }, "bad-op")
+  | ["cfg", "splay", v, c, kt] =>
+    if (v = "set" ∨ v = "multi") ∧ (c = "less" ∨ c = "greater") ∧ (kt = "int" ∨ kt = "mk") then
       ({ kind := .splay (v = "multi") (c = "greater") {} }, "ok")
     else ({ kind := .none }, "bad-op")
   | "cfg" :: _ => ({ kind := .none }, "bad-op")
